@@ -45,11 +45,16 @@ ENCODINGS = {
 }
 
 
-def _wrap(kind, values):
+def _wrap(kind, values, dtype=None):
     if kind == "list":
         return list(values)
     if kind == "ndarray":
-        return np.asarray(values)
+        arr = np.asarray(values)
+        if dtype and arr.dtype.kind in "iub" and all(isinstance(v, (int, bool, np.integer)) for v in values):
+            # the same numeric labels in a narrower / floating dtype (int8, float32, ...)
+            if not (dtype == "uint8" and min(int(v) for v in values) < 0):
+                arr = arr.astype(dtype)
+        return arr
     if kind == "series":
         return pd.Series(values, index=np.arange(len(values))[::-1] + 5)
     raise ValueError(kind)
@@ -102,8 +107,9 @@ def check(case):
     yp_v = [vals[i] for i in yp_idx]
     w = case.get("w")
     kind = case.get("kind", "list")
-    Yt, Yp = _wrap(kind, yt_v), _wrap(kind, yp_v)
+    Yt, Yp = _wrap(kind, yt_v, case.get("np_dtype")), _wrap(kind, yp_v, case.get("np_dtype2"))
     W = None if w is None else _wrap(case.get("wkind", kind), w)
+
 
     tags = []
     both = len(set(yt_idx.tolist()) | set(yp_idx.tolist())) == 2
@@ -115,6 +121,8 @@ def check(case):
         tags.append("weighted")
     if n == 1:
         tags.append("n1")
+    if kind == "ndarray" and (case.get("np_dtype") or case.get("np_dtype2")) and ENCODINGS[case["enc"]][0] not in ("a",):
+        tags.append("narrow_or_float_dtype")
 
     funcs = {
         "tpr": true_positive_rate,
@@ -238,6 +246,8 @@ def _cases(draw):
         "w": draw(st.one_of(st.none(), st.lists(_weights, min_size=n, max_size=n))),
     }
     case["wkind"] = draw(st.sampled_from(["list", "ndarray", "series"]))
+    case["np_dtype"] = draw(st.sampled_from([None, None, "int8", "uint8", "float32", "float64", "int32"]))
+    case["np_dtype2"] = draw(st.sampled_from([None, None, "int8", "uint8", "float32", "float64", "int32"]))
     return case
 
 
